@@ -1593,7 +1593,8 @@ class Mps(MatrixProduct):
             else:
                 tensor = tensordot(tensor, ms, ([0,-1,-2],[0,-1,-2]))
             assert xp.allclose(tensor, tensor.T.conj())
-            rdm[ims] = asnumpy(tensor)
+            # `tensor` is indexed (bra, ket): transpose to rho[a, b] = <a| Tr_rest |Psi><Psi| |b>
+            rdm[ims] = asnumpy(tensor.T)
 
         return rdm
     
@@ -1651,7 +1652,8 @@ class Mps(MatrixProduct):
                 rtensor = R_component[jms]
                 res = tensordot(tensor, rtensor,
                         ([2,3],[0,1])).transpose(0,2,1,3)
-                rdm[(ims, jms)] = asnumpy(res.reshape(res.shape[0]*res.shape[1],-1))
+                # `res` is indexed (bra, ket): transpose to rho[a, b] = <a| Tr_rest |Psi><Psi| |b>
+                rdm[(ims, jms)] = asnumpy(res.reshape(res.shape[0]*res.shape[1],-1).T)
         return rdm
     
     def calc_edof_rdm(self) -> np.ndarray:
